@@ -75,6 +75,19 @@ ByCallCases(zzdummy) ==
         [e |-> "sig", doc |-> MkObj(<<JMem(<<97>>, arrs[cells[i][3]])>>),
          text |-> NameCps(g) \o <<cLPAREN>> \o (IF g = "map" THEN rf \o <<cCOMMA, 97>> ELSE <<97, cCOMMA>> \o rf) \o <<cRPAREN>>]]
 
+(* names that differ from a built-in's only in letter case, separators or a prefix / suffix are unknown functions *)
+Upper(c) == IF c >= 97 /\ c <= 122 THEN c - 32 ELSE c
+RECURSIVE Camel(_, _)
+Camel(s, up) == IF s = <<>> THEN <<>> ELSE IF Head(s) = 95 THEN Camel(Tail(s), TRUE) ELSE <<IF up THEN Upper(Head(s)) ELSE Head(s)>> \o Camel(Tail(s), FALSE)
+NoUnderscore(s) == SelectSeq(s, LAMBDA c : c # 95)
+Misspellings(nm) == {Camel(nm, FALSE), Camel(nm, TRUE), [i \in DOMAIN nm |-> Upper(nm[i])], <<Upper(nm[1])>> \o Tail(nm), NoUnderscore(nm), nm \o <<95>>, <<95>> \o nm, nm \o <<115>>} \ {nm}
+MisspeltCases(zzdummy) ==
+  LET cells == SetToSeq(UNION {{<<m, FnNames[i]>> : m \in Misspellings(NameCps(FnNames[i]))} : i \in DOMAIN FnNames})
+      known == {NameCps(FnNames[i]) : i \in DOMAIN FnNames}
+      sel == SelectSeq(cells, LAMBDA c : c[1] \notin known)
+      arg(f) == IF Len(Sig(f).ps) = 1 THEN <<cAT>> ELSE <<cAT, cCOMMA, cAMP, cAT>>
+  IN [i \in DOMAIN sel |-> [e |-> "sig", text |-> sel[i][1] \o <<cLPAREN>> \o arg(sel[i][2]) \o <<cRPAREN>>, doc |-> JArr(<<JInt(1), JInt(2)>>)]]
+
 Unknown == <<110, 111, 115, 117, 99, 104>>          \* "nosuch"
 Arities(f) == 0..(IF Len(Sig(f).ps) + 2 > MAXAR THEN MAXAR ELSE Len(Sig(f).ps) + 2)
 SigCases(zzdummy) ==
@@ -93,7 +106,7 @@ SigCases(zzdummy) ==
      \o [i \in DOMAIN own |-> [e |-> "sig", text |-> CallText(NameCps(own[i].f), <<own[i].a>>, IOEnv.VIA), doc |-> DocOf(<<own[i].a>>, IOEnv.VIA), rt |-> "empty"]]
      \o [i \in DOMAIN own |-> [e |-> "sig", text |-> CallText(NameCps(own[i].f), <<own[i].a>>, IOEnv.VIA), doc |-> DocOf(<<own[i].a>>, IOEnv.VIA), rt |-> "fresh"]]
      \o [i \in DOMAIN FnNames |-> [e |-> "sig", text |-> CallText(NameCps(FnNames[i]), <<>>, IOEnv.VIA), doc |-> DocOf(<<>>, IOEnv.VIA), rt |-> "empty"]]
-     \o PairCases("sig") \o ProjCallCases(0) \o ByCallCases(0)
+     \o PairCases("sig") \o ProjCallCases(0) \o ByCallCases(0) \o MisspeltCases(0)
      \o [i \in DOMAIN unk |-> Case("sig", Unknown, unk[i], IOEnv.VIA)]
      \o [x \in 1..(Len(byArrs) * 3) |-> Case("sig", NameCps(byFns[((x - 1) % 3) + 1]), <<byArrs[((x - 1) \div 3) + 1], JExpref(AIdentity)>>, IOEnv.VIA)]
      \o [x \in 1..Len(byArrs) |-> Case("sig", NameCps("map"), <<JExpref(AIdentity), byArrs[x]>>, IOEnv.VIA)]
@@ -130,6 +143,7 @@ Fam(n, d, a) ==
                   [] a = 6 -> IF i % 7 = 0 THEN 0 ELSE 1
   IN JArr([i \in 1..n |-> Rec(JInt(key(i)), i)])
 Families == {Fam(n, d, a) : n \in {16, 33, 34, 40, 64}, d \in {2, 3}, a \in 1..6}
+            \cup {Fam(n, 3, a) : n \in {191, 192, 257, 300}, a \in {1, 4, 6}}        \* beyond the sizes at which an implementation might split the work
 
 ExprefK == JExpref(AField(KeyK))
 ValText(fname, args) ==   \* like CallText via doc, but an expression reference is spelled &k
@@ -142,6 +156,9 @@ ToNumStrs == {JStr(<<49>>), JStr(<<49, 46, 53>>), JStr(<<45, 50>>), JStr(<<32, 4
               \* every optional part of the JSON number grammar: 1e2 1E2 1e+2 1e-2 -2.5E+3 1.5e1 +1 1e+ 1e 1.e2 12e+2 0e0 0.0 -0.5 1E+0
               JStr(<<49, 101, 50>>), JStr(<<49, 69, 50>>), JStr(<<49, 101, 43, 50>>), JStr(<<49, 101, 45, 50>>), JStr(<<45, 50, 46, 53, 69, 43, 51>>),
               JStr(<<49, 46, 53, 101, 49>>), JStr(<<43, 49>>), JStr(<<49, 101, 43>>), JStr(<<49, 101>>), JStr(<<49, 46, 101, 50>>), JStr(<<49, 50, 101, 43, 50>>),
+              \* JSON values that are not numbers behind JSON blanks (and numbers behind / before blanks): " true" "\t[1, 2]" " {}" " \"a\"" " null" "true " " 12" "12 " "\n1.5\n"
+              JStr(<<32, 116, 114, 117, 101>>), JStr(<<9, 91, 49, 44, 32, 50, 93>>), JStr(<<32, 123, 125>>), JStr(<<32, 34, 97, 34>>), JStr(<<32, 110, 117, 108, 108>>),
+              JStr(<<116, 114, 117, 101, 32>>), JStr(<<32, 49, 50>>), JStr(<<49, 50, 32>>), JStr(<<10, 49, 46, 53, 10>>), JStr(<<13, 102, 97, 108, 115, 101>>),
               JStr(<<48, 101, 48>>), JStr(<<48, 46, 48>>), JStr(<<45, 48, 46, 53>>), JStr(<<49, 69, 43, 48>>), JStr(<<49, 48, 48>>), JStr(<<49, 46, 50, 53>>)}
 AnyVals == Mixed \cup {JNum(3, 2), JInt(-1), JArr(<<JInt(1), JStr(<<97>>), JNull>>)}
 
@@ -204,6 +221,12 @@ ZeroCases(zzdummy) ==
 
 ValCases(zzdummy) == LET cs == SetToSeq(ValCells(0)) IN [i \in DOMAIN cs |-> VCase(cs[i][1], cs[i][2])] \o PairCases("val") \o ZeroCases(0)
 
-Cases(zzdummy) == IF IOEnv.MODE = "sig" THEN SigCases(0) ELSE ValCases(0)
+(* to_number's declared result (number | null) over every string shape, alone and fed to a function that refuses everything but containers and strings *)
+ToNumSigCases(zzdummy) ==
+  LET tn == SetToSeq(ToNumStrs)
+  IN [i \in DOMAIN tn |-> [e |-> "sig", text |-> NameCps("to_number") \o <<cLPAREN, 97, cRPAREN>>, doc |-> MkObj(<<JMem(<<97>>, tn[i])>>)]]
+     \o [i \in DOMAIN tn |-> [e |-> "sig", text |-> NameCps("length") \o <<cLPAREN>> \o NameCps("to_number") \o <<cLPAREN, 97, cRPAREN, cRPAREN>>,
+                               doc |-> MkObj(<<JMem(<<97>>, tn[i])>>)]]
+Cases(zzdummy) == IF IOEnv.MODE = "sig" THEN SigCases(0) \o ToNumSigCases(0) ELSE ValCases(0)
 ASSUME ndJsonSerialize(IOEnv.OUT, Cases(0))
 =============================================================================
